@@ -6,9 +6,30 @@ RULE = ("generated worlds (1-3 torrents single/multi-file, pieces spanning files
         "partial files, hard links, shared files, every prior export state, both flag values, threads 0/1/2/3/8); each run of the real start() is "
         "replayed against the extracted model (per-piece programs fed the observed read results) and checked by the write-log / byte-provenance oracle; "
         "non-trivial = distinct run with at least one successful mutating operation")
+def repeated_pieces(w, rng):
+    """Torrents whose pieces repeat (A-B-A, zero runs: equal SHA-1 at different offsets), with damaged candidates: a copy
+    in which some of the repeated pieces are corrupt, so that pieces fail between two equal ones."""
+    import worldgen
+    from props import c06
+    w2 = c06.repeated_world(rng.randrange(10 ** 6), rng.randrange(10 ** 6))
+    for t in w2.torrents:
+        for f in t.files:
+            if f.length >= 2 * t.piece_length and rng.random() < 0.7:
+                # replace the intact copy by one with a corrupt middle: the first piece is good, the next ones are not
+                L = t.piece_length
+                bad = bytearray(f.content)
+                for k in range(L, min(len(bad), 3 * L)):
+                    bad[k] ^= 0x5A
+                for rel, what in list(w2.files.items()):
+                    if what[0] == "file" and what[1] == f.content and rel[0] == b"scan0":
+                        w2.files[rel] = ("file", bytes(bad))
+    w2.threads = rng.choice([1, 1, 2])
+    w.__dict__.update(w2.__dict__)
+
+
 correspondence, search, replay, ASSUMPTIONS = runbase.make(
     "C01", [oracles.c01],
-    [("std", 260, 2500, {}, None)],
+    [("std", 260, 2500, {}, None), ("repeat", 24, 200, {}, repeated_pieces)],
     RULE,
     "solve_prog_good (for every read answer and op result: only good operations, never a panic) and walk_good (every accepted trace consists of good events) proved; the model is tied to solver/writer by trace validation of whole runs",
     ["'correct torrent bytes' is expressed with hypothesis cr: anything hashing to the piece hash is the piece's content (second-preimage resistance at the touched points)",
